@@ -1000,6 +1000,17 @@ def rule_r13(ctx) -> List[R.Inst]:
                 dnames = {nm_[-1]}
     fills = [n for n in ast.walk(fn.node) if isinstance(n, ast.Assign) and isinstance(n.targets[0], ast.Subscript) and
              any(isinstance(x, ast.Name) and x.id in dnames for x in ast.walk(n.value))]
+    # a cast inside the fill loop applies to the filled column only: `df = df.astype(t)` re-types EVERY column to the dtype of the one
+    # defaulted field (float offsets of a list whose defaulted field is an int are truncated)
+    wide = [n for n in ast.walk(fn.node) if isinstance(n, ast.Assign) and len(n.targets) == 1 and isinstance(n.targets[0], ast.Name) and
+            isinstance(n.value, ast.Call) and call_name(n.value) == "astype" and isinstance(n.value.func.value, ast.Name) and
+            n.value.func.value.id == n.targets[0].id and n.value.args and not isinstance(n.value.args[0], (ast.Dict, ast.Call)) and
+            any(isinstance(l_, ast.For) and any(x is n for x in ast.walk(l_)) for l_ in ast.walk(fn.node))]
+    if wide:
+        insts.append(R.viol(rid, "from_dict:cast-scope", file, wide[0].lineno,
+                            f"'{unparse(wide[0])}' inside the loop over the declared fields casts the WHOLE frame to the dtype of the field "
+                            f"being defaulted: every other column (float offsets, lengths) is truncated / re-typed with it",
+                            construct=f"from_dict: {unparse(wide[0])}"))
     if not fills:
         insts.append(R.undec(rid, "from_dict", file, line, "default fill not found"))
     else:
